@@ -57,7 +57,8 @@ LcpLen(a, b, i) == IF i > Len(a) \/ i > Len(b) \/ a[i] # b[i] THEN i - 1 ELSE Lc
 Lcp(a, b) == SubSeq(a, 1, LcpLen(a, b, 1))
 
 \* keys: set of trie keys ever inserted since the last clear
-TrieNodes(keys) == keys \cup {Lcp(a, b) : a, b \in keys}
+\* (the root node always exists: the empty key finds it even in an empty trie)
+TrieNodes(keys) == keys \cup {Lcp(a, b) : a, b \in keys} \cup {<<>>}
 
 \* the owner names the implementation looks at for a question name
 ImplOwners(names, qname, subdomains, mode) ==
@@ -67,12 +68,18 @@ ImplOwners(names, qname, subdomains, mode) ==
   THEN IF k \in TrieNodes(keys) THEN {n \in names : IsPrefix(k, TrieKey(n, mode))} ELSE {}
   ELSE {n \in names : TrieKey(n, mode) = k}
 
+\* ResourceRecord::match_qtype as implemented, including the question types C18 leaves unconstrained
+ImplMatchQType(t, q) == CASE q = 252 -> TRUE        \* AXFR: everything
+                          [] q = 254 -> t = 15      \* MAILA: MX
+                          [] q = 251 -> FALSE       \* IXFR: nothing
+                          [] OTHER -> MatchQType(t, q)
+
 \* what build_reply answers: for every question, the authoritative records found under the
 \* question name (with subdomains) that match type and class
 ImplAnswers(auth, names, qd, mode) ==
   {k \in auth : \E i \in 1 .. Len(qd) :
        /\ k.name \in ImplOwners(names, qd[i].name, TRUE, mode)
-       /\ (MatchDefined(qd[i].qtype) => MatchQType(k.type, qd[i].qtype))
+       /\ ImplMatchQType(k.type, qd[i].qtype)
        /\ MatchQClass(k.class, qd[i].qclass)}
 
 \* the additional records build_reply attaches: address records found at exactly the target of an
